@@ -131,6 +131,28 @@ def main(argv):
         else:
             still.append(inst)
     viol = still
+    # A finding about a catch-all (`[_=A,B,C]`: the node kinds that fall through to it) that has become *narrower* - some of the listed
+    # kinds got an arm of their own - is still the listed finding; one more kind falling through is a new one.
+    import re as _re2
+    def _parts(key):
+        m = _re2.match(r"^(.*)\[_=([^\]]*)\](.*)$", key)
+        return (m.group(1), set(m.group(2).split(",")) - {""}, m.group(3)) if m else None
+    still = []
+    for inst in viol:
+        pi = _parts(inst["key"])
+        hit = None
+        if pi:
+            for kk, k in kset.items():
+                pk = _parts(kk[1])
+                if kk[0] == inst["rule"] and kk not in seen_keys and pk and pk[0] == pi[0] and pk[2] == pi[2] and pi[1] <= pk[1]:
+                    hit = (kk, k)
+                    break
+        if hit:
+            kf.append((dict(inst, key="%s (narrower than listed %s)" % (inst["key"], hit[1]["key"])), hit[1]))
+            seen_keys.add(hit[0])
+        else:
+            still.append(inst)
+    viol = still
     stale = [k for kk, k in kset.items() if kk not in seen_keys and kk[0] in ctx.rule_doc]  # only rules evaluated in this tier
 
     rdir = os.path.join(out_root, "reports", pid)
